@@ -8,14 +8,21 @@ tie        : harness/extractors/c01.py -> coq/Gen/ConstsC01.v (EPS, Vector table
 oracle     : numeric round trips on the implementation (relative 1e-6 inside the
              conditioning region of the property), shapes/types through dutils.cast;
              input class X (threshold exponents x extreme logarithms), class E (ends of
-             the conditioning region of the other classes), the stateful mode (one object,
+             the conditioning region of the other classes), class F (every class at the far ends of
+             the region in which an exact 50-digit reference says the round trip is representable
+             and well conditioned: internal arguments of 1e-300 .. 1e300, either side of every
+             overflow / absorption limit of exp, parameters and constants at the far ends of their
+             bounds; long and 2-D arrays), the stateful mode (one object,
              many settings), the censored lives (backward_censored on re-used objects with
              recurring censor values, censors outside / at the end of the domain) and the
              sessions (several live objects, interleaved calls, reused array objects, stored
              representations of the float64 input) are oracle-only
 """
+import decimal
 import math
 import os
+from decimal import Decimal as D
+from fractions import Fraction
 
 import numpy as np
 
@@ -142,7 +149,16 @@ def run(ctx):
                 "and either side of every threshold of the module (EPS, 1e-8, 1e-8+2e-5; 0 and 2) x "
                 "arguments with x+nu resp. 1+|w| in 1e-100..1e100 inside |lam*ln| <= 13.8; class E = the "
                 "other classes at the ends of the ranges of the point generator (Logit within 1e-4 of a "
-                "bound, LogSinh w = 1e-4 and 30, arguments of 1e-6 / 1e6, Manly at |lam*u| = 13.8); stateful = "
+                "bound, LogSinh w = 1e-4 and 30, arguments of 1e-6 / 1e6, Manly at |lam*u| = 13.8); class F = "
+                "every class with its internal argument (x+nu, 1+|w|, a+b*x/xmax, (x-nu)*scale, lam*x/xmax, "
+                "(x-lower)/delta, Softmax entries and 1-sum) from 1e-300 to 1e300 through every magnitude at "
+                "which exp / sinh / a square overflows, vanishes or is absorbed (18.4, 37, 88.7, 355, 373, 709.8, "
+                "745; 9.5e7, 1.3e154), at the end |lam*ln| = 13.8 of the stated region and log-uniform at random, x "
+                "nu / xmax / scale of 1e-305 .. 1e300, any base, all branch exponents; a point belongs to the "
+                "class when the closed forms evaluated in 50-digit decimal arithmetic say that x and its image "
+                "are representable and that 8 ulps on y (resp. on the scale of x) move the round trip by less "
+                "than 2 % of the tolerance; judged by the round-trip clauses at 1e-6 (also as a long 1-D and a "
+                "2-D array, and by backward_censored = max(x, censor)); stateful = "
                 "one object per class and constructor variant taken through a sequence of settings "
                 "(element assignment by attribute / key / key on .params, whole-vector assignment, "
                 "reset()) with round trips and comparison with a fresh object after each step; "
@@ -177,6 +193,10 @@ def run(ctx):
     ctx.tested_not_proved = [
         "floating-point accuracy of the round trips (relative 1e-6 in the conditioning region) - "
         "tested on the implementation",
+        "absence of overflow / underflow / absorption of intermediate quantities at the far ends of the "
+        "well-conditioned region (arguments of 1e-300 .. 1e300): tested (class F; the model is over R); not "
+        "asserted where the pinned formulas are not careful: Logit (x-lower)/delta < 1e-8, Manly 0 < "
+        "|lam*x/xmax| < 1e-8, Softmax 1 - sum < 1e-9",
         "dutils.cast glue (scalar / n-d inputs), get_transform, Vector clipping of stored values",
         "independence of the results from the history of one object (parameters changed in place, by "
         "whole-vector assignment, reset()): tested (stateful mode), the model is a pure function of "
@@ -427,14 +447,17 @@ def run(ctx):
     t4 = time.time()
     censored_life_checks(ctx)
     t_life = time.time() - t4
+    t5 = time.time()
+    far_checks(ctx)
+    t_far = time.time() - t5
 
     # ---- E3
     t1 = time.time()
     bad, nok, nshards, failed = tc.run_e3(PID, goals, shard=ctx.scale(40, 60))
-    ctx.notes["timing_s"] = {"prove": round(t_prove, 1), "generate+oracle": round(t1 - t0 - t_prove - t_sess - t_life, 1),
+    ctx.notes["timing_s"] = {"prove": round(t_prove, 1), "generate+oracle": round(t1 - t0 - t_prove - t_sess - t_life - t_far, 1),
                              "e3": round(time.time() - t1, 1),
                              "classX+stateful": round(t_extra, 1), "sessions": round(t_sess, 1),
-                             "censored-lives": round(t_life, 1)}
+                             "censored-lives": round(t_life, 1), "classF": round(t_far, 1)}
     ctx.notes["correspondence_goals"] = len(goals)
     ctx.notes["correspondence_mismatches"] = len(bad)
     ctx.notes["e3_shards"] = nshards
@@ -455,9 +478,10 @@ def run(ctx):
     return ctx.finish()
 
 
-def roundtrip_failures(t, name, opts, eff, xs):
+def roundtrip_failures(t, name, opts, eff, xs, keep_infinite=False):
     """the round-trip oracle of the main loop on a list of in-region points:
-    [(failure mode, replay fields, text)]"""
+    [(failure mode, replay fields, text)].  keep_infinite: an infinite forward(x) is handed to
+    backward like any other value (class F: the exact image is representable there)"""
     out = []
     rtol = rt_rtol(name, eff)
     ys, err = tc.call(t, "fwd", xs)
@@ -469,7 +493,7 @@ def roundtrip_failures(t, name, opts, eff, xs):
         if math.isnan(y):
             out.append(("forward-nan-in-domain", {"method": "forward", "x": x, "output": y},
                         f"forward({x!r}) is NaN inside the domain"))
-        elif math.isfinite(y):
+        elif math.isfinite(y) or keep_infinite:
             fin.append((x, y))
     if not fin:
         return out
@@ -577,6 +601,618 @@ def edge_checks(ctx):
                     ctx.count((name, "E", j) + branch_sig(name, eff, x))
                 n += len(xs)
     ctx.notes["classE_points"] = n
+
+
+# ----------------------------------------------------------------------------
+# input class F (oracle only): the FAR ENDS of the region in which the round trip is well
+# conditioned.  The points of the other classes keep every internal argument of the closed forms
+# moderate (|ln z| <= 11.5, LogSinh w <= 30, arguments of 1e-6 .. 1e6); the property has no such
+# limit: it quantifies over all x of the domain at which the mapping is well conditioned.  Class
+# F takes the internal argument of every class (x + nu, 1 + |w|, w = a + b*x/xmax, (x - nu)*scale,
+# lam*x/xmax, (x - lower)/delta, the entries of a Softmax row and 1 - their sum) to the far ends:
+# up to 1e300 and down to 1e-300, through every magnitude at which an intermediate quantity of a
+# naive formula leaves the binary64 (or binary32) range or is absorbed (exp overflows at 88.7 /
+# 709.8, exp(2w) at 354.9, exp(-w) vanishes at 745.1, exp(-2w) at 372.6 and drops below 2^-53
+# at 18.4, u*u overflows at 1.3e154 and absorbs 1 at 9.5e7, ...), combined with parameters and
+# constants at the far ends of their declared bounds (nu, xmax, scale of 1e-10 .. 1e300, any
+# logarithm base, exponents up to the limit |lam*ln z| = 13.8 of the property).
+#
+# WHICH points belong to the class is decided by an exact reference, not by the library: the
+# closed forms of the class evaluated in 50-digit decimal arithmetic (python's decimal: ln, exp,
+# power, sqrt; series where 50 digits would cancel) on the stored binary64 values.  A point x
+# is accepted when (1) x and the exact image y* = F(x) are representable (0 or 1e-300 <= |.| <=
+# 1e300), (2) the exact backward of the binary64 nearest to y*, moved by 8 ulps either way, is
+# within 2 % of the property's tolerance of x, (3) the exact forward of the binary64 nearest to
+# B(y), moved either way by 8 * 2^-52 of the magnitude against which x is compared, is within
+# 2 % of the tolerance of y.  (2) and (3) say that the round trip is representable and well
+# conditioned: a careful binary64 implementation (one that loses a few ulps per operation and
+# never forms an intermediate quantity outside the range) meets the property's tolerance there
+# with a margin of 50.  The regions stated by the property itself (|lam*ln| <= 13.8, LogSinh
+# w >= 1e-4, Manly |lam| >= 1e-3 or 0, Yeo-Johnson outside 0 < w < 1e3*EPS) are applied first.
+# The implementation is then judged by the property's own clause and tolerance
+# (roundtrip_failures: backward(forward(x)) against x, forward(backward(y)) against y, 1e-6),
+# never against the reference's values; a forward that is infinite at an accepted point is
+# passed on to backward like any other value (the round trip then fails).  The same points are
+# also passed as one long 1-D array and as a 2-D array (numpy's vector loops), and to
+# backward_censored with one of them as censor (= max(x, censor), increasing transforms).
+#
+# Where the unchanged library is NOT careful, the class stops at the measured limit of the
+# library's formula (LIB_LIMITS below; each is an observation of notes/C01.md, not asserted):
+#   Logit   forward forms 1/(1-v) - 1: relative error 2^-53/v; asserted for v >= 1e-8 only
+#           (the reference accepts v down to 1e-300 when lower = 0)
+#   Manly   forward forms exp(lam*u) - 1, backward log(1 + lam*y): relative error 2^-53/|lam*u|;
+#           asserted for |lam*u| >= 1e-8 (and all u in the branch |lam| <= EPS, which is u itself)
+#   Softmax forward raises for 1 - sum(x) < EPS = 1e-10 (documented guard); 1 - sum is formed by
+#           subtraction; asserted for 1 - sum >= 1e-9
+
+_DC = decimal.Context(prec=50, Emax=10 ** 15, Emin=-10 ** 15, rounding=decimal.ROUND_HALF_EVEN,
+                      traps=[decimal.InvalidOperation, decimal.DivisionByZero, decimal.Overflow])
+_TINY = D("1e-20")
+_U52 = D(2) ** -52
+
+MAGS_BIG = (1e7, 1e8, 1e9, 1e12, 1e15, 1e16, 1e17, 1e30, 1e60, 1e100, 1e153, 1e154, 1e155, 1e200, 1e250,
+            1e300)
+MAGS_SMALL = (1e-7, 1e-8, 1e-9, 1e-10, 1e-12, 1e-15, 1e-16, 1e-17, 1e-30, 1e-60, 1e-100, 1e-153, 1e-154,
+              1e-155, 1e-200, 1e-250, 1e-300)
+# arguments of exp / sinh / log-sum forms either side of every range or absorption limit
+EXPARGS = (18.0, 19.0, 36.0, 37.5, 40.0, 60.0, 88.0, 89.5, 100.0, 200.0, 354.0, 356.0, 372.0, 373.5, 500.0,
+           700.0, 709.0, 709.7, 710.6, 720.0, 745.0, 746.0, 1e3, 1e4, 1e5, 1e6)
+# moderate arguments, where an implementation may switch to an asymptotic form
+MODERATE = (1.5, 2.0, 3.0, 4.0, 5.0, 6.0, 7.0, 8.0, 10.0, 12.0, 15.0, 25.0, 30.0)
+LIB_LIMITS = {"Logit_vmin": 1e-8, "Manly_tmin": 1e-8, "Softmax_gapmin": 1e-9}
+
+
+def _d_ln1p(s):
+    """ln(1 + s), 50 digits also for tiny s"""
+    return s - s * s / 2 + s * s * s / 3 if abs(s) < _TINY else (1 + s).ln()
+
+
+def _d_expm1(t):
+    return t + t * t / 2 + t * t * t / 6 if abs(t) < _TINY else t.exp() - 1
+
+
+def _d_bc_fwd(z, lam, e):
+    """Box-Cox of z > 0 with the branch test of the module"""
+    if abs(lam) > e:
+        return _d_expm1(lam * z.ln()) / lam
+    return z.ln()
+
+
+def _d_bc_bwd(y, lam, e):
+    if abs(lam) > e:
+        s = lam * y
+        if 1 + s <= 0:
+            return None
+        return (_d_ln1p(s) / lam).exp()
+    return y.exp()
+
+
+def ref_fwd(name, opts, vals, x):
+    """exact (50 digits) forward of the class at the Decimal x for the stored binary64 values; None
+    outside the domain.  Call inside decimal.localcontext(_DC)."""
+    e = D(tc.eps())
+    v = {k: D(f) for k, f in vals.items()}
+    if name == "Identity":
+        return x
+    if name == "Logit":
+        d = v["logdelta"].exp()
+        p = (x - v["lower"]) / d
+        return (p / (1 - p)).ln() if 0 < p < 1 else None
+    if name == "Log":
+        base = tc.full_opts(name, opts)["base"]
+        z = x + v["nu"]
+        return None if z <= 0 else z.ln() / (1 if base is None else D(math.log(base)))
+    if name in ("BoxCox2", "BoxCox1lam", "BoxCox1nu"):
+        z = x + v["nu"]
+        return None if z <= 0 else _d_bc_fwd(z, v["lam"], e)
+    if name == "BoxCox2sym":
+        z = abs(x) + v["nu"]
+        if z <= 0 or v["nu"] <= 0:
+            return None
+        r = _d_bc_fwd(z, v["lam"], e) - _d_bc_fwd(v["nu"], v["lam"], e)
+        return r if x >= 0 else -r
+    if name == "YeoJohnson":
+        w = v["nu"] + x * v["scale"]
+        lam = v["lam"]
+        if w >= e:
+            return (1 + w).ln() if np.isclose(vals["lam"], 0.0) else _d_expm1(lam * (1 + w).ln()) / lam
+        p = 2 - lam
+        return -(1 - w).ln() if np.isclose(vals["lam"], 2.0) else -_d_expm1(p * (1 - w).ln()) / p
+    if name == "LogSinh":
+        a, b = D(math.exp(vals["loga"])), D(math.exp(vals["logb"]))
+        w = a + b * x / v["xmax"]
+        if w <= 0:
+            return None
+        return (w.ln() if w < _TINY else w + ((1 - (-2 * w).exp()) / 2).ln()) / b
+    if name == "Reciprocal":
+        z = v["nu"] + x
+        return None if z <= 0 else -1 / z
+    if name == "Sinh":
+        u = (x - v["nu"]) * v["scale"]
+        if abs(u) < _TINY:
+            return u
+        r = (abs(u) + (u * u + 1).sqrt()).ln()
+        return r if u > 0 else -r
+    if name == "Manly":
+        u = x / v["xmax"]
+        return _d_expm1(v["lam"] * u) / v["lam"] if abs(v["lam"]) > e else u
+    raise KeyError(name)
+
+
+def ref_bwd(name, opts, vals, y):
+    """exact backward (see ref_fwd); None where it is not defined"""
+    e = D(tc.eps())
+    v = {k: D(f) for k, f in vals.items()}
+    if name == "Identity":
+        return y
+    if name == "Logit":
+        return v["lower"] + v["logdelta"].exp() / (1 + (-y).exp())
+    if name == "Log":
+        base = tc.full_opts(name, opts)["base"]
+        return (y * (1 if base is None else D(math.log(base)))).exp() - v["nu"]
+    if name in ("BoxCox2", "BoxCox1lam", "BoxCox1nu"):
+        z = _d_bc_bwd(y, v["lam"], e)
+        return None if z is None else z - v["nu"]
+    if name == "BoxCox2sym":
+        z = _d_bc_bwd(abs(y) + _d_bc_fwd(v["nu"], v["lam"], e), v["lam"], e)
+        if z is None:
+            return None
+        return z - v["nu"] if y >= 0 else -(z - v["nu"])
+    if name == "YeoJohnson":
+        lam = v["lam"]
+        if y >= e:
+            if np.isclose(vals["lam"], 0.0):
+                w = _d_expm1(y)
+            else:
+                if 1 + lam * y <= 0:
+                    return None
+                w = _d_expm1(_d_ln1p(lam * y) / lam)
+        else:
+            p = 2 - lam
+            if np.isclose(vals["lam"], 2.0):
+                w = -_d_expm1(-y)
+            else:
+                if 1 - p * y <= 0:
+                    return None
+                w = -_d_expm1(_d_ln1p(-p * y) / p)
+        return (w - v["nu"]) / v["scale"]
+    if name == "LogSinh":
+        a, b = D(math.exp(vals["loga"])), D(math.exp(vals["logb"]))
+        t = b * y
+        return v["xmax"] * (t + (1 + (1 + (-2 * t).exp()).sqrt()).ln() - a) / b
+    if name == "Reciprocal":
+        return None if y >= 0 else -1 / y - v["nu"]
+    if name == "Sinh":
+        s = y + y * y * y / 6 if abs(y) < _TINY else (y.exp() - (-y).exp()) / 2
+        return s / v["scale"] + v["nu"]
+    if name == "Manly":
+        if abs(v["lam"]) > e:
+            s = v["lam"] * y
+            return None if 1 + s <= 0 else v["xmax"] * _d_ln1p(s) / v["lam"]
+        return v["xmax"] * y
+    raise KeyError(name)
+
+
+def _representable(q):
+    return q == 0 or D("1e-300") <= abs(q) <= D("1e300")
+
+
+def stated_region(name, opts, vals, x):
+    """the regions stated by the property text itself (floats; cheap, applied before the reference)"""
+    try:
+        if name in ("Log", "BoxCox2", "BoxCox1lam", "BoxCox1nu", "BoxCox2sym"):
+            z = (abs(x) if name == "BoxCox2sym" else x) + vals["nu"]
+            lam = vals.get("lam", 0.0)
+            if not z > 0:
+                return False
+            if name == "BoxCox2sym" and abs(lam * math.log(vals["nu"])) > tc.LNMAX:
+                return False
+            return abs(lam * math.log(z)) <= tc.LNMAX
+        if name == "YeoJohnson":
+            w = vals["nu"] + x * vals["scale"]
+            if 0 < w < 1e3 * tc.eps():
+                return False
+            ex_ = vals["lam"] if w >= tc.eps() else 2 - vals["lam"]
+            return abs(ex_ * math.log1p(abs(w))) <= tc.LNMAX
+        if name == "LogSinh":
+            return math.exp(vals["loga"]) + math.exp(vals["logb"]) * (x / vals["xmax"]) >= 1e-4
+        if name == "Manly":
+            if not in_accuracy_region(name, vals):
+                return False
+            t = vals["lam"] * (x / vals["xmax"])
+            return abs(vals["lam"]) <= tc.eps() or t == 0 or abs(t) >= LIB_LIMITS["Manly_tmin"]
+        if name == "Logit":
+            p = (x - vals["lower"]) / math.exp(vals["logdelta"])
+            return LIB_LIMITS["Logit_vmin"] <= p < 1
+    except (ValueError, OverflowError, ZeroDivisionError):
+        return False
+    return True
+
+
+def far_ok(name, opts, vals, x, lib_limits=True):
+    """the exact reference accepts x for the setting `vals` (see the header of class F)"""
+    if not math.isfinite(x) or (lib_limits and not stated_region(name, opts, vals, x)):
+        return False
+    try:
+        with decimal.localcontext(_DC):
+            X = D(x)
+            xs = D(x_scale(name, opts, vals, x))
+            lim = D("0.02") * D(rt_rtol(name, vals))
+            if not _representable(X):
+                return False
+            Y = ref_fwd(name, opts, vals, X)
+            if Y is None or not _representable(Y):
+                return False
+            yf = float(Y)
+            ys = D(y_scale(name, opts, vals, yf))
+            for k in (-8, 8):
+                Xk = ref_bwd(name, opts, vals, D(yf) * (1 + k * _U52))
+                if Xk is None or not abs(Xk - X) <= lim * xs:
+                    return False
+            B = ref_bwd(name, opts, vals, D(yf))
+            if B is None or not _representable(B):
+                return False
+            xb = D(float(B))
+            for k in (-8, 8):
+                Yk = ref_fwd(name, opts, vals, xb + k * _U52 * xs)
+                if Yk is None or not abs(Yk - D(yf)) <= lim * ys:
+                    return False
+            return True
+    except (decimal.DecimalException, ValueError, OverflowError, ZeroDivisionError):
+        return False
+
+
+def far_candidates(name, opts, vals, rng, nrandom):
+    """candidate points of class F for the (effective) values `vals`: the internal argument of the
+    class at every magnitude of MAGS_* / EXPARGS and at the end of the region stated by the property,
+    plus `nrandom` log-uniform draws over the whole range"""
+    xs = []
+    lu = [10 ** rng.uniform(-300, 300) for _ in range(nrandom)]
+    mags = MAGS_SMALL + MAGS_BIG
+    if name == "Identity":
+        xs = [s * m for m in mags + tuple(lu) for s in (1, -1)]
+    elif name == "Logit":
+        d = math.exp(vals["logdelta"])
+        ps = list(MAGS_SMALL[:4]) + [1 - m for m in MAGS_SMALL[:4]] + \
+            [1 / (1 + math.exp(-s * y)) for y in MODERATE + EXPARGS[:5] for s in (1, -1)] + \
+            [1 / (1 + math.exp(-rng.uniform(-21, 21))) for _ in range(nrandom)]
+        xs = [vals["lower"] + p * d for p in ps]
+    elif name in ("Log", "BoxCox2", "BoxCox1lam", "BoxCox1nu", "BoxCox2sym"):
+        lam = vals.get("lam", 0.0)
+        zs = list(mags) + lu
+        if lam != 0:       # the end of the stated region |lam*ln z| = 13.8
+            zs += [math.exp(s * c * tc.LNMAX / abs(lam)) for c in (0.9999, 0.9) for s in (1, -1)
+                   if c * tc.LNMAX / abs(lam) < 690]
+        for z in zs:
+            x = z - vals["nu"]
+            xs += [x, -x] if name == "BoxCox2sym" else [x]
+    elif name == "YeoJohnson":
+        lam = vals["lam"]
+        ws = [s * m for m in MAGS_BIG + tuple(v for v in lu if v > 1) for s in (1, -1)]
+        ws += [-m for m in MAGS_SMALL] + [-v for v in lu if v < 1]
+        for ex_, s in ((lam, 1), (2 - lam, -1)):
+            if ex_ != 0:
+                ws += [s * math.expm1(c * tc.LNMAX / abs(ex_)) for c in (0.9999, 0.9)
+                       if c * tc.LNMAX / abs(ex_) < 690]
+        xs = [(w - vals["nu"]) / vals["scale"] for w in ws]
+    elif name == "LogSinh":
+        a, b = math.exp(vals["loga"]), math.exp(vals["logb"])
+        ws = list(MODERATE) + list(EXPARGS) + list(MAGS_BIG) + [v for v in lu if v > 30] + \
+            [10 ** rng.uniform(1.5, 6) for _ in range(nrandom)]
+        xs = [(w - a) / b * vals["xmax"] for w in ws]
+    elif name == "Reciprocal":
+        xs = [z - vals["nu"] for z in list(mags) + lu]
+    elif name == "Sinh":
+        xs = [s * u / vals["scale"] + vals["nu"] for u in list(mags) + lu + list(MODERATE) + list(EXPARGS[:10])
+              for s in (1, -1)]
+    elif name == "Manly":
+        lam = vals["lam"]
+        us = [s * u for u in list(mags) + lu for s in (1, -1)]
+        if lam != 0:
+            us += [s * t / lam for t in MODERATE + EXPARGS[:18] + (1e-8, 1e-7, 1e-6) for s in (1, -1)]
+            us += [s * 10 ** rng.uniform(-8, 2.85) / lam for _ in range(nrandom) for s in (1, -1)]
+        xs = [u * vals["xmax"] for u in us]
+    return list(dict.fromkeys(float(x) for x in xs if math.isfinite(x)))
+
+
+def far_vectors(name, rng, thorough):
+    """[(constructor options, values)] of class F: the branch values of the parameters and the far
+    ends of the declared bounds of parameters and constants"""
+    e = tc.eps()
+    out = []
+    if name == "Identity":
+        out = [({}, {})]
+    elif name == "Logit":
+        out = [({}, {"lower": lo, "logdelta": ld}) for lo, ld in
+               ((0.0, 0.0), (0.0, -10.0), (0.0, 10.0), (1.0, 0.0), (-1.0, 1.0), (100.0, 5.0), (-1e3, 10.0),
+                (1e-5, -10.0), (0.0, 3.0), (rng.gauss(0, 5), rng.uniform(-10, 10)))]
+    elif name in ("Log", "Reciprocal"):
+        variants = [{}, {"mininu": 1e-305}, {"mininu": 1.0}]
+        if name == "Log":
+            variants += [{"base": 10.0}, {"base": 2.0}, {"base": 0.5}, {"mininu": 1e-305, "base": 10.0},
+                         {"base": 1.0001}, {"base": 1e300}, {"base": 1e-300}, {"base": math.e},
+                         {"mininu": 0.5, "base": round(rng.uniform(1.5, 20), 3)}]
+        k = 0
+        for opts in variants:
+            lo = tc.full_opts(name, opts)["mininu"]
+            nus = [lo, 1.0, 1e10, 1e100, 1e300, lo + 10 ** rng.uniform(-12, 12)]
+            for nu in (nus if thorough or opts in ({}, {"mininu": 1e-305}) else [nus[k % len(nus)], lo]):
+                if nu >= lo:
+                    out.append((dict(opts), {"nu": nu}))
+            k += 1
+    elif name in ("BoxCox2", "BoxCox1lam", "BoxCox1nu", "BoxCox2sym"):
+        variants = [{}, {"mininu": 1e-305, "minilam": -3.0}, {"minilam": -3.0}, {"mininu": 1.0, "minilam": -1.0}]
+        lams = _far_lams(e) + [rng.choice([1, -1]) * 10 ** rng.uniform(-3, -1.3) for _ in range(2)]
+        k = 0
+        for lam in lams:
+            for vi, opts in enumerate(variants):
+                if not thorough and vi != k % len(variants):
+                    continue
+                b = tc.bounds(name, opts)
+                lo = b["nu"][2]
+                if not b["lam"][2] <= lam <= b["lam"][3]:
+                    continue
+                nus = [lo, 1.0, 1e10, 1e200]
+                for nu in (nus if thorough else [nus[(k // len(variants)) % len(nus)]]):
+                    if nu >= lo:
+                        out.append((dict(opts), {"nu": nu, "lam": lam}))
+            k += 1
+    elif name == "YeoJohnson":
+        b = tc.bounds(name, {})
+        combos = [(0.0, 1.0), (0.0, b["scale"][2]), (0.0, 1e3), (0.5, 1e10), (100.0, 10.0), (-3.0, 1e-3),
+                  (0.0, 1e100), (-1e10, 1.0)]
+        lams = []
+        for c in (0.0, 2.0):
+            lams += [c + s * d for d in (0.0, e, 1e-8, math.nextafter(1e-8, 1), 2.001e-5, 3e-5, 1e-3, 5e-3, 0.01,
+                                         0.0199, 0.02, 0.05, 0.1) for s in ((1, -1) if d else (1,))]
+        lams += [1.0, -1.0, 3.0, 0.5, 1.5, rng.uniform(-1, 3)]
+        k = 0
+        for lam in lams:
+            if not b["lam"][2] <= lam <= b["lam"][3]:
+                continue
+            for j in (range(len(combos)) if thorough else (k,)):
+                nu, sc = combos[j % len(combos)]
+                out.append(({}, {"nu": nu, "scale": sc, "lam": lam}))
+            k += 1
+    elif name == "LogSinh":
+        b = tc.bounds(name, {})
+        alo, ahi, blo, bhi, xlo = b["loga"][2], b["loga"][3], b["logb"][2], b["logb"][3], b["xmax"][2]
+        out = [({}, {"loga": la, "logb": lb, "xmax": xm}) for la, lb, xm in
+               ((-1.0, 0.0, 1.0), (-1.0, bhi, 2.0), (ahi, bhi, 1.0), (alo, bhi, xlo), (alo, blo, 1.0),
+                (-1.0, 0.0, xlo), (ahi, blo, 1e100), (-5.0, 2.0, 0.1), (-1.0, 3.0, 2.0), (ahi, 0.0, 0.01),
+                (-0.1, -2.0, 1e10), (-3.0, 1.0, 1e300), (-10.0, 0.3, 1e-3),
+                (rng.uniform(alo, ahi), rng.uniform(blo, bhi), 10 ** rng.uniform(-10, 10)),
+                (rng.uniform(alo, ahi), rng.uniform(blo, bhi), 10 ** rng.uniform(-6, 5)))]
+    elif name == "Sinh":
+        b = tc.bounds(name, {})
+        out = [({}, {"nu": nu, "scale": sc}) for nu, sc in
+               ((0.0, 1.0), (0.0, b["scale"][2]), (0.0, 1e10), (0.0, 1e100), (1.0, 1.0), (-1e10, 1e-5),
+                (100.0, 1e3), (-0.01, 2.0), (1e100, 1.0), (rng.gauss(0, 10), 10 ** rng.uniform(-10, 10)))]
+    elif name == "Manly":
+        b = tc.bounds(name, {})
+        llo, lhi, xlo = b["lam"][2], b["lam"][3], b["xmax"][2]
+        lams = [0.0, e, math.nextafter(e, 1), -math.nextafter(e, 1), 1e-3, -1e-3, 0.1, -0.1, 1.0, -1.0, lhi, llo,
+                0.01, -0.02, rng.choice([1, -1]) * 10 ** rng.uniform(-3, 0.69)]
+        xms = [1.0, xlo, 1e10, 1e100, 2.0, 1e-3, 1e300]
+        for k, lam in enumerate(lams):
+            for xm in (xms if thorough else [xms[k % len(xms)], xms[(k + 3) % len(xms)]]):
+                out.append(({}, {"lam": lam, "xmax": xm}))
+    return out
+
+
+def _far_lams(e):
+    s = [0.0]
+    for d in (e, math.nextafter(e, 1), 1e-9, 1e-7, 1e-5, 1e-3, 5e-3, 0.01, 0.0199, 0.02, 0.03, 0.05, 0.1, 0.2,
+              0.5, 1.0, 2.0, 3.0):
+        s += [d, -d]
+    return s
+
+
+def far_array_failures(t, name, opts, eff, xs, shape):
+    """the round-trip clause on the points `xs` passed as one float64 array of the given shape
+    (numpy's vector loops): [(failure mode, replay fields, text)], at most one per mode"""
+    X = np.resize(np.array(xs, dtype=np.float64), shape)
+    flat = X.ravel()
+    sx = np.array([x_scale(name, opts, eff, x) for x in xs], dtype=np.float64)
+    sx = np.resize(sx, flat.shape)
+    rtol = rt_rtol(name, eff)
+    out = []
+    info = {"array_shape": list(X.shape)}
+
+    def first(mask):
+        i = int(np.flatnonzero(mask)[0])
+        return i, float(flat[i])
+    try:
+        with np.errstate(all="ignore"):
+            Y = np.asarray(t.forward(X), dtype=np.float64)
+            Bk = np.asarray(t.backward(Y), dtype=np.float64)
+    except Exception as e:      # noqa: BLE001
+        return [("forward-raises", dict(info, method="forward / backward", x=xs, exception=repr(e)),
+                 f"forward / backward of a float64 array of shape {list(X.shape)} holding the points {xs!r} raised "
+                 f"{type(e).__name__}")]
+    if Y.shape != X.shape or Bk.shape != X.shape:
+        return [("cast-2d", dict(info, method="forward / backward", x=xs),
+                 f"forward / backward of a float64 array of shape {list(X.shape)} returned the shapes "
+                 f"{list(Y.shape)} / {list(Bk.shape)}")]
+    y, b = Y.ravel(), Bk.ravel()
+    if np.isnan(y).any():
+        i, x = first(np.isnan(y))
+        out.append(("forward-nan-in-domain", dict(info, method="forward", x=x, index=i, output=float(y[i])),
+                    f"forward({x!r}) (element {i} of a float64 array of shape {list(X.shape)}) is NaN inside the "
+                    f"domain"))
+    ok = ~np.isnan(y)
+    if (np.isnan(b) & ok).any():
+        i, x = first(np.isnan(b) & ok)
+        out.append(("backward-nan-on-image", dict(info, method="backward", x=x, index=i, y=float(y[i]),
+                                                  output=float(b[i])),
+                    f"backward(forward({x!r})) (element {i} of a float64 array of shape {list(X.shape)}) is NaN"))
+    ok &= ~np.isnan(b)
+    with np.errstate(all="ignore"):
+        bad = ok & ~(np.abs(b - flat) <= rtol * sx)
+    if bad.any() and in_accuracy_region(name, eff):
+        i, x = first(bad)
+        out.append(("roundtrip-backward-forward", dict(info, method="backward", x=x, index=i, y=float(y[i]),
+                                                       output=float(b[i])),
+                    f"backward(forward({x!r})) = {float(b[i])!r} (element {i} of a float64 array of shape "
+                    f"{list(X.shape)})"))
+    return out
+
+
+def far_censored_failures(t, name, opts, eff, xs, c):
+    """backward_censored(forward(x), c) = max(x, c) on the accepted points, c one of them"""
+    ys, _ = tc.call(t, "fwd", xs)
+    if ys is None or not all(math.isfinite(y) for y in ys):
+        return []                       # (reported by the round-trip oracle)
+    try:
+        with np.errstate(all="ignore"):
+            got = _flat(t.backward_censored(np.array(ys, dtype=np.float64), float(c)))
+    except Exception as e:      # noqa: BLE001
+        return [("backward_censored-raises", {"method": "backward_censored", "x": xs, "y": ys, "censor": c,
+                                              "exception": repr(e)},
+                 f"backward_censored(forward({xs!r}), {c!r}) raised {type(e).__name__}")]
+    if len(got) != len(xs):
+        return []
+    bad = censored_oracle(name, opts, eff, xs, c, got)
+    if not bad:
+        return []
+    x, g, want = bad[0]
+    return [("backward_censored-roundtrip", {"method": "backward_censored", "x": xs, "y": ys, "censor": c,
+                                             "output": got, "x_failing": x, "expected": want},
+             f"backward_censored(forward({x!r}), censor={c!r}) = {g!r}, expected max(x, censor) = {want!r} "
+             f"({len(bad)} of {len(xs)} points wrong)")]
+
+
+def far_checks(ctx):
+    import random
+    rng = random.Random(f"{PID}:far:{ctx.seed}")
+    nrandom = ctx.scale(3, 12)
+    npts = nvec = 0
+    for name in tc.CLASSES:
+        if name == "Softmax":
+            continue
+        cm.mark({"call": "transform (class F)", "class": name})
+        vectors = far_vectors(name, rng, ctx.thorough)
+        if True:
+            for k, (opts, vals) in enumerate(vectors):
+                via_get = k % 8 == 3
+                try:
+                    t, eff = tc.make(name, opts, vals, via_get)
+                except Exception:      # noqa: BLE001 - a setting the constructor refuses is not C01's matter
+                    continue
+                if any(math.isnan(v) for v in eff.values()):
+                    continue
+                xs = [x for x in far_candidates(name, opts, eff, rng, nrandom) if far_ok(name, opts, eff, x)]
+                if not xs:
+                    continue
+                nvec += 1
+                base = {"class": name, "opts": opts, "values": eff, "via_get_transform": via_get,
+                        "input_class": "far ends of the well-conditioned region (accepted by the exact reference)"}
+                fails = roundtrip_failures(t, name, opts, eff, xs, keep_infinite=True)
+                if not fails:
+                    # the same points through numpy's vector loops, and backward_censored
+                    n = len(xs)
+                    shape = [(4099,), (2, n), (n, 3), (64, 65)][k % 4]
+                    fails = far_array_failures(t, name, opts, eff, xs, shape)
+                    if not fails and name not in LIFE_EXCLUDED and increasing(name, opts) and \
+                            in_accuracy_region(name, eff):
+                        fails = far_censored_failures(t, name, opts, eff, xs, sorted(xs)[(k * 7) % n])
+                for mode, rep, text in fails:
+                    ctx.failure(f"C01/{name}/{mode}", dict(base, **rep), f"{name}{opts} {eff}: {text}")
+                for x in xs:
+                    ctx.count((name, "F", _far_sig(name, eff, x)) + branch_sig(name, eff, x))
+                npts += len(xs)
+    ctx.notes["classF_points"] = npts
+    ctx.notes["classF_settings"] = nvec
+    far_softmax(ctx, rng)
+
+
+def _far_sig(name, vals, x):
+    """decade (in steps of 50) of the internal argument, for the coverage count"""
+    try:
+        if name in ("Log", "BoxCox2", "BoxCox1lam", "BoxCox1nu", "Reciprocal"):
+            a = x + vals["nu"]
+        elif name == "BoxCox2sym":
+            a = abs(x) + vals["nu"]
+        elif name == "YeoJohnson":
+            a = vals["nu"] + x * vals["scale"]
+        elif name == "LogSinh":
+            a = math.exp(vals["loga"]) + math.exp(vals["logb"]) * (x / vals["xmax"])
+        elif name == "Sinh":
+            a = (x - vals["nu"]) * vals["scale"]
+        elif name == "Manly":
+            a = vals["lam"] * (x / vals["xmax"]) if abs(vals["lam"]) > tc.eps() else x / vals["xmax"]
+        elif name == "Logit":
+            a = (x - vals["lower"]) / math.exp(vals["logdelta"])
+        else:
+            a = x
+        return 0 if a == 0 else int(math.floor(math.log10(abs(a)) / 50))
+    except (ValueError, OverflowError, ZeroDivisionError):
+        return None
+
+
+def far_softmax(ctx, rng):
+    """Softmax at the far ends: entries down to 1e-300 beside ordinary ones, 1 - sum(row) down to
+    LIB_LIMITS (exact: Fraction), long rows, many rows; backward(forward(x)) = x entry-wise at 1e-6
+    and forward(backward(y)) = y at 1e-6 * max(|y|, 1)"""
+    from hydrodiy.stat import transform as T
+    sm = T.Softmax()
+    n = 0
+    shapes = [(1, 1), (1, 2), (3, 4), (2, 300), (400, 3), (1, 5), (5, 1), (2, 2)]
+    for k in range(ctx.scale(16, 80)):
+        nrows, ncols = shapes[k % len(shapes)]
+        rows = []
+        for i in range(nrows):
+            gap = [1.001e-9, 1e-8, 1e-6, 1e-3, 0.5, 1 - 1e-12, 10 ** rng.uniform(-8.9, 0)][(k + i) % 7]
+            ent = [10 ** rng.uniform(-3, 0) for _ in range(ncols)]
+            tot = sum(ent)
+            row = [v / tot * (1 - gap) for v in ent]
+            # a few entries at the far end (the others keep the sum)
+            for j in range(ncols):
+                if ncols > 1 and (i + j + k) % 3 == 0 and j != ncols - 1 - (i % ncols):
+                    row[j] = rng.choice(MAGS_SMALL)
+            if ncols == 1 and (k + i) % 2:
+                row[0] = rng.choice(MAGS_SMALL)
+            # exact gap; keep the row inside the class
+            g = 1 - sum(Fraction(v) for v in row)
+            if g < Fraction(LIB_LIMITS["Softmax_gapmin"]) or min(row) < 1e-300:
+                row = [v * 0.5 for v in row]
+            rows.append(row)
+        cm.mark({"call": "Softmax (class F)", "shape": [nrows, ncols]})
+        ys, err = tc.call(sm, "fwd", rows)
+        rep = {"class": "Softmax", "method": "forward", "rows": rows if nrows * ncols <= 60 else rows[:2],
+               "shape": [nrows, ncols], "exception": err,
+               "input_class": "far ends: entries down to 1e-300, 1 - sum down to 1e-9, long rows, many rows"}
+        ctx.count(("Softmax", "F", nrows, ncols))
+        if ys is None:
+            ctx.failure("C01/Softmax/forward-raises", rep, f"Softmax.forward raised {err} in the domain (rows "
+                        f"positive, sums below 1 - 1e-9, shape {[nrows, ncols]})")
+            continue
+        yrows = [ys[i * ncols:(i + 1) * ncols] for i in range(nrows)]
+        bs, berr = tc.call(sm, "bwd", yrows)
+        if bs is None:
+            ctx.failure("C01/Softmax/backward-raises", dict(rep, method="backward", exception=berr),
+                        f"Softmax.backward raised {berr} on forward of a {[nrows, ncols]} matrix")
+            continue
+        flat = [v for r in rows for v in r]
+        bad = [(i, v, b) for i, (v, b) in enumerate(zip(flat, bs)) if not abs(b - v) <= 1e-6 * abs(v)]
+        if bad or len(bs) != len(flat):
+            i, v, b = bad[0] if bad else (None, None, None)
+            ctx.failure("C01/Softmax/roundtrip-backward-forward",
+                        dict(rep, method="backward", row=rows[i // ncols] if bad else None, forward=None if not bad
+                             else yrows[i // ncols], index=i, output=b),
+                        f"Softmax ({[nrows, ncols]} matrix): backward(forward(x)) entry {b!r} != {v!r} (row "
+                        f"{None if not bad else i // ncols}, column {None if not bad else i % ncols})")
+            continue
+        brows = [bs[i * ncols:(i + 1) * ncols] for i in range(nrows)]
+        y2, err2 = tc.call(sm, "fwd", brows)
+        bad = y2 is None or any(not abs(a - y) <= 1e-6 * max(abs(y), 1.0) for a, y in zip(y2, ys))
+        if bad:
+            ctx.failure("C01/Softmax/roundtrip-forward-backward",
+                        dict(rep, method="forward(backward(y))", exception=err2),
+                        f"Softmax ({[nrows, ncols]} matrix): forward(backward(y)) "
+                        f"{'raised ' + str(err2) if y2 is None else 'differs from y by more than 1e-6'}")
+        n += len(flat)
+    ctx.notes["classF_softmax_entries"] = n
 
 
 def _same(a, b, scale):
